@@ -11,8 +11,8 @@ Diag == IOEnv.DIAG = "1"
 Has(c) == CASE c = "C07" -> IOEnv.CHK_C07 = "1" [] c = "C17" -> IOEnv.CHK_C17 = "1" [] c = "C18" -> IOEnv.CHK_C18 = "1" [] OTHER -> FALSE
 Chk(name, line, val) == IF Diag THEN (IF val THEN TRUE ELSE PrintT(<<"FAILED", name, "line", line>>)) ELSE val
 
-VARIABLES l, gd
-gvars == <<l, gd>>
+VARIABLES l, gd, gd2
+gvars == <<l, gd, gd2>>
 NoGrid == [t |-> "none"]
 E == Log[l]
 Is(e) == l <= Len(Log) /\ E.e = e
@@ -35,7 +35,7 @@ MeshAreaSumOK(d, aq) ==
 MeshNoDuplicates(d) == \A i \in Nodes(d) : LET s == MeshNeighSeq(d, i) IN
                           \A a, b \in DOMAIN s : a # b => s[a].j # s[b].j
 
-TReset == Is("Reset") /\ gd' = NoGrid /\ Adv
+TReset == Is("Reset") /\ gd' = NoGrid /\ gd2' = NoGrid /\ Adv
 TGridNew ==
   /\ Is("GridNew")
   /\ LET d == E.d
@@ -54,37 +54,43 @@ TGridNew ==
                    /\ Chk("C18.AreasFinite", l, \A i \in Nodes(d) : At(E.acls, i) = 0)
                    /\ Chk("C18.NodeAreas", l, MeshAreasOK(d, E.aq))
                    /\ Chk("C18.AreasSumToTriangles", l, MeshAreaSumOK(d, E.aq))
-        /\ gd' = IF E.threw = "" /\ acc THEN [t |-> "grid", d |-> d, nb |-> NeighTable(d), st |-> StatusArray(d)] ELSE NoGrid
-  /\ Adv
+        \* a grid that was built is followed through the rest of its history even if the
+        \* specification says it should have been refused (already reported above)
+        /\ gd' = IF E.threw = "" THEN [t |-> "grid", d |-> d, nb |-> NeighTable(d), st |-> StatusArray(d)] ELSE NoGrid
+  /\ UNCHANGED gd2 /\ Adv
+\* a second, cache-less grid of the same type living next to the first one (another geometry)
+TGridNew2 == /\ Is("GridNew2")
+             /\ gd2' = [t |-> "grid", d |-> E.d, nb |-> NeighTable(E.d), st |-> StatusArray(E.d)]
+             /\ UNCHANGED gd /\ Adv
 
 TIter ==
   /\ Is("Iter") /\ gd # NoGrid
   /\ LET exp == IF E.st < 0 THEN SortedSeq(Nodes(gd.d)) ELSE FilteredSeq(gd.d, E.st) IN
      Has("C17") => /\ Chk("C17.IterationForward", l, E.fwd = exp)
                    /\ Chk("C17.IterationReverse", l, E.rev = Reverse(exp))
-  /\ UNCHANGED gd /\ Adv
+  /\ UNCHANGED <<gd, gd2>> /\ Adv
 
 \* expected answers (as bags)
-ExpIdx(i) == BagOfSeq([k \in DOMAIN gd.nb[i] |-> gd.nb[i][k].j])
-ExpDist(i) == BagOfSeq([k \in DOMAIN gd.nb[i] |-> gd.nb[i][k].dsq])
-ExpNb(i) == BagOfSeq([k \in DOMAIN gd.nb[i] |-> <<gd.nb[i][k].j, gd.nb[i][k].dsq, gd.st[gd.nb[i][k].j]>>])
-NC == gd.d.nc
-ExpRcIdx(i) == BagOfSeq([k \in DOMAIN gd.nb[i] |-> <<gd.nb[i][k].j \div NC, gd.nb[i][k].j % NC>>])
-ExpRcNb(i) == BagOfSeq([k \in DOMAIN gd.nb[i] |-> <<gd.nb[i][k].j, gd.nb[i][k].j \div NC, gd.nb[i][k].j % NC, gd.nb[i][k].dsq, gd.st[gd.nb[i][k].j]>>])
+ExpIdx(G, i) == BagOfSeq([k \in DOMAIN G.nb[i] |-> G.nb[i][k].j])
+ExpDist(G, i) == BagOfSeq([k \in DOMAIN G.nb[i] |-> G.nb[i][k].dsq])
+ExpNb(G, i) == BagOfSeq([k \in DOMAIN G.nb[i] |-> <<G.nb[i][k].j, G.nb[i][k].dsq, G.st[G.nb[i][k].j]>>])
+ExpRcIdx(G, i) == BagOfSeq([k \in DOMAIN G.nb[i] |-> <<G.nb[i][k].j \div G.d.nc, G.nb[i][k].j % G.d.nc>>])
+ExpRcNb(G, i) == BagOfSeq([k \in DOMAIN G.nb[i] |-> <<G.nb[i][k].j, G.nb[i][k].j \div G.d.nc, G.nb[i][k].j % G.d.nc, G.nb[i][k].dsq, G.st[G.nb[i][k].j]>>])
 HasF(f) == f \in DOMAIN E
 
 TQ ==
-  /\ Is("Q") /\ gd # NoGrid /\ E.i \in Nodes(gd.d)
-  /\ LET i == E.i IN
+  /\ Is("Q") /\ (IF E.inst = 2 THEN gd2 ELSE gd) # NoGrid /\ E.i \in Nodes((IF E.inst = 2 THEN gd2 ELSE gd).d)
+  /\ LET i == E.i
+         G == IF E.inst = 2 THEN gd2 ELSE gd IN
      (Has("C07") \/ Has("C18")) =>
-       /\ HasF("count") => Chk("C07.Count", l, E.count = Len(gd.nb[i]))
-       /\ HasF("indices") => Chk("C07.Indices", l, BagOfSeq(E.indices) = ExpIdx(i))
-       /\ HasF("indices_buf") => Chk("C07.IndicesBuffer", l, BagOfSeq(E.indices_buf) = ExpIdx(i))
-       /\ HasF("distances") => Chk("C07.Distances", l, BagOfSeq(E.distances) = ExpDist(i))
-       /\ HasF("neighbors") => Chk("C07.NeighborStructs", l, BagOfSeq(E.neighbors) = ExpNb(i))
-       /\ HasF("neighbors_buf") => Chk("C07.NeighborStructsBuffer", l, BagOfSeq(E.neighbors_buf) = ExpNb(i))
-       /\ HasF("rc_indices") => Chk("C07.RowColIndices", l, BagOfSeq(E.rc_indices) = ExpRcIdx(i))
-       /\ HasF("rc_neighbors") => Chk("C07.RowColNeighbors", l, BagOfSeq(E.rc_neighbors) = ExpRcNb(i))
+       /\ HasF("count") => Chk("C07.Count", l, E.count = Len(G.nb[i]))
+       /\ HasF("indices") => Chk("C07.Indices", l, BagOfSeq(E.indices) = ExpIdx(G, i))
+       /\ HasF("indices_buf") => Chk("C07.IndicesBuffer", l, BagOfSeq(E.indices_buf) = ExpIdx(G, i))
+       /\ HasF("distances") => Chk("C07.Distances", l, BagOfSeq(E.distances) = ExpDist(G, i))
+       /\ HasF("neighbors") => Chk("C07.NeighborStructs", l, BagOfSeq(E.neighbors) = ExpNb(G, i))
+       /\ HasF("neighbors_buf") => Chk("C07.NeighborStructsBuffer", l, BagOfSeq(E.neighbors_buf) = ExpNb(G, i))
+       /\ HasF("rc_indices") => Chk("C07.RowColIndices", l, BagOfSeq(E.rc_indices) = ExpRcIdx(G, i))
+       /\ HasF("rc_neighbors") => Chk("C07.RowColNeighbors", l, BagOfSeq(E.rc_neighbors) = ExpRcNb(G, i))
        \* all accessors asked at once: they must agree position by position
        /\ E.acc = "all" =>
             /\ Chk("C07.AccessorsAgree", l,
@@ -97,10 +103,10 @@ TQ ==
                         /\ E.rc_neighbors[k][1] = E.indices[k]
                         /\ <<E.rc_neighbors[k][2], E.rc_neighbors[k][3]>> = E.rc_indices[k]
                         /\ E.rc_neighbors[k][4] = E.distances[k] /\ E.rc_neighbors[k][5] = E.neighbors[k][3])
-  /\ UNCHANGED gd /\ Adv
+  /\ UNCHANGED <<gd, gd2>> /\ Adv
 
-GInit == l = 1 /\ gd = NoGrid
-GNext == TReset \/ TGridNew \/ TIter \/ TQ
+GInit == l = 1 /\ gd = NoGrid /\ gd2 = NoGrid
+GNext == TReset \/ TGridNew \/ TGridNew2 \/ TIter \/ TQ
 GSpec == GInit /\ [][GNext]_gvars
 GAccepted == IF TLCGet("stats").diameter - 1 = Len(Log) THEN TRUE
              ELSE PrintT(<<"REJECTED at line", TLCGet("stats").diameter, "of", Len(Log)>>) /\ FALSE
